@@ -112,8 +112,9 @@ CLAIMS = {
     design_ref="§5 C05, §CST→AST lowering — as built (round 11)",
     note="Round 11: the constructor-vs-local classification of ast/src/lower.rs (is_constructor_path and its binder stack) is now inside a "
          "Lean model (Model/Lower.lean) whose stack discipline is proved (Props/Lower.lean: lower_binder_stack_balanced, patVars_scope) and which "
-         "./check C05 ties to the real lowering on the real rowan tree of every file of every generated and catalogue program; conOk* is still "
-         "evaluated per case (lower_ctor_iff for all trees is not proved). "
+         "./check C05 ties to the real lowering on the real rowan tree of every file of every generated and catalogue program; lower_ctor_iff (Props/Lower.lean) proves conOk* of every "
+         "AST the lowering MODEL produces, for all trees; conOk* is still evaluated per case on the REAL AST as a cross-check, and the model-free "
+         "lower-classification oracle does the same on every real lowered AST of the tie. "
          "Trusted: Lean kernel (axioms printed in evidence), harness AST→scope-tree dump and HIR walk, the generator's coverage of scope shapes. "
          "The typer's own scoping (LocalTypeEnv) is exercised only through the acceptance oracle.",
     technique="Lean 4 proof (structural induction over the nested AST) + differential correspondence with the Rust resolver"),
@@ -312,18 +313,24 @@ CLAIMS = {
          "closures, blocks/let, if/while/match/go; patterns; types; items fn/enum/struct/trait/impl/extern incl. attributes; the binder stack "
          "locals with is_constructor / is_constructor_path; the diagnostics). Theorems (Props/Lower.lean): lower_binder_stack_balanced (for every "
          "tree, fuel and state the stack after lowering an expression / branch / field / argument / arm / block equals the stack before), "
+         "lower_ctor_iff / lower_ctor_iff_block / lower_ctor_iff_arm (for every tree, fuel and state the lowered AST is classified exactly as the "
+         "declarative scope rules of Model/Resolve.lean say — every EConstr [x] has x in the file's constructor set and no enclosing local binder x, "
+         "every classified EPath [x] is not such a name — hence Resolve.conOkExpr holds of it: the hypothesis of resolve_refines_spec is a theorem), "
          "lower_stmt_only_pushes, lower_pat_ty_leave_stack, lower_total_partial (no tree reaches the one panic site of lower.rs; missing: that the "
          "model's fuel always suffices), isCtorPath_bare_iff / isCtorPath_qualified (the classification test), patVars_scope (bind_pat pushes "
          "exactly Resolve.patNames). Tie: the REAL rowan tree of ~52 000 texts per quick run (all corpus and witness files, the name catalogue, "
          "every operator tree of this check, 700 generated whole programs with items / patterns / types / blocks / closures / struct literals, "
          "2 500 token-level mutants = error-recovered trees, LF/CRLF pairs) is lowered by the model and must equal the real ast::File dump or "
-         "the real diagnostic list; model-free oracles: no panic in ast::lower, LF and CRLF spellings of a program lower to the same tree.",
+         "the real diagnostic list; model-free oracles: no panic in ast::lower, LF and CRLF spellings of a program lower to the same tree, every bare name of every real "
+         "lowered AST is classified as the lexical scope rules say (lower-classification), and a prefix operator followed by every chain of 3-4 calls / "
+         "fields / projections is read as the operator applied to the whole chain (432 programs, expected tree built independently).",
     design_ref="§5 C11, §C11 — as built, §CST→AST lowering — as built (round 11)",
     note="Proved: the theorems above about the Lean model. Validated only (differential, not proved): that the model equals the Rust parser "
          "and lowering; integer/float literal values (no Lean theorem: the value is computed by Rust's str::parse, the harness compares with "
          "an independently computed expectation); items, patterns and types are not in the OPERATOR-tree generator (they are in the round-11 "
-         "program generator of the lowering tie); NOT proved: lower_ctor_iff against the declarative scope rules for all trees (only the "
-         "stack discipline and the test are proved, the rest is the tie plus C05's conOk check), lower_parse_print beyond operator trees, "
+         "program generator of the lowering tie); NOT proved: the fold of lower_ctor_iff over lower_item to one whole-File statement (proved for expressions, blocks, arms from any stack and "
+         "for lower_fn from the empty stack), lower_fuel_suffices, "
+         "lower_parse_print beyond operator trees, "
          "sufficiency of the model's fuel, source ranges of lowering diagnostics (not modelled). "
          "Trusted: Lean kernel, tools/extract.py regexes, harness AST dump and trivia insertion, the real lexer (C12) for token boundaries.",
     technique="Lean 4 proof (structural induction over trees via a spine decomposition of the Pratt CST) + translator for the "
